@@ -1038,6 +1038,12 @@ pub fn check_ops<T: SSTable>(ctx: &mut Ctx, codec: &Codec<T>, case: &DictCase, d
                 }
             }
             "aut" => {
+                // third answer part: the model streamer run on the front-coded entries with the
+                // automaton state stack (what `Streamer::advance` does); it is the one compared
+                let model = halves.get(2).copied().unwrap_or(model);
+                if halves.len() >= 3 {
+                    ctx.report.count("aut:state-stack-model-compared");
+                }
                 let aspec = match AutSpec::parse(parts[1]) {
                     Some(a) => a,
                     None => continue,
